@@ -9,7 +9,7 @@ from symx import skeletons as SK
 SKELS = ["cat3", "two_tree", "two_parents", "disjoint_node", "two_roots", "unary_nonsample",
          "unary_sample", "swap_child", "three_pieces", "internal_sample", "tri",
          "isolated_sample_mutation", "dead_branch", "dead_branch_mid", "trailing_gap",
-         "missing_sample", "root_pieces", "sample_parent_pieces"]
+         "missing_sample", "root_pieces", "sample_parent_pieces", "unary_nonsample_flagged"]
 
 
 def _oracle(ts, skip_samples):
